@@ -105,7 +105,8 @@ def build_v1(spec):
         for k in range(N_TOPICS):
             co.append('define user ask topic %d\n  "topic %d"\n  "tell me about topic %d"\n' % (k, k, k))
         # topic 0: predefined bot message; topic 1: LLM-generated bot message after a dialog action; topic 2: generated
-        co.append('define bot answer topic 0\n  "PRE[topic0] predefined answer."\n')
+        # (optionally the predefined message refers to a context variable of the conversation in template syntax)
+        co.append('define bot answer topic 0\n  "PRE[topic0] predefined answer%s."\n' % (" for {{ visitor }}" if spec.get("bot_template_var") else ""))
         co.append("define flow topic 0\n  user ask topic 0\n  bot answer topic 0\n")
         co.append('define flow topic 1\n  user ask topic 1\n  $v = execute sim_dialog(name="d1")\n  bot answer topic 1\n')
         co.append("define flow topic 2\n  user ask topic 2\n  bot answer topic 2\n")
@@ -400,6 +401,14 @@ class RailsWorld:
             y, co = build_v2(spec)
         self.yaml, self.colang = y, co
         self.config = RailsConfig.from_content(colang_content=co, yaml_content=y)
+        with _quiet(quiet):
+            self.app = LLMRails(self.config, llm=self.llm)
+        self._register()
+
+    def rebuild_app(self, quiet=True):
+        """A restart of the serving process: a NEW LLMRails instance from the same configuration (same simulated peers)."""
+        from nemoguardrails import LLMRails
+
         with _quiet(quiet):
             self.app = LLMRails(self.config, llm=self.llm)
         self._register()
